@@ -33,7 +33,7 @@ RULE = ("cap = ChannelPackageQueueSize = 4 (also 1; thorough: 1, 2, 8 in the fil
         "each): 78 cases; output: every call returned / the reader idle again, queue lengths, ids reported invalid, NextPackage result, Conn.Close returned, reader ended. fn 12 the same packet kinds in the WINDOW: a consumer waits in "
         "NextPackage on logical channel 1, Close / Conn.Close has sent the teardown and waits for the write lock, the packet arrives and the reader (channel still registered) queues in WritePacket's RLock behind the pending writer "
         "(both parked states seen in the goroutine dump), the consumer's context is cancelled: 20 cases. fn 10 concurrent closers (as C12 fn 5): 2..3 goroutines in Channel.Close of one logical channel, Conn.Close among them, the "
-        "transport holds the teardown packets until all are parked in the write: 32 cases, GOMAXPROCS 1/4. "
+        "transport holds the teardown packets until every closer is parked in the write or has returned: 16 cases, GOMAXPROCS 1/4. "
         "Watchdogs: a call that must return gets 4 s, the known blocking scenarios are observed for 3 s; only booleans reach the case file. Distinct by (fn, input).")
 TRUSTED = ["Coq 8.16.1 kernel + vm_compute (no native_compute)",
            "hand-written models coq/theories/C13/Model.v + C13/Closers.v of NextPackage / NextPackageUntil / sendPackets / WritePacket / Close / Conn.Close / Conn.ReadFrom (tied by this correspondence: "
@@ -47,7 +47,8 @@ ASSUMPTIONS = ["sync.RWMutex as Go implements it: a pending Lock blocks new RLoc
                "the reader/closer system has ONE closing goroutine and one channel; Conn.Close over several channels is their sequential composition (observed with up to 5 channels); "
                "several closers of one channel are a system of their own (C13/Closers.v: n instances of the same program on a logical channel, no long-term read-lock holders, the closers' own "
                "RLock/check/RUnlock is one step); concurrent Close of channel 0 (two logouts competing for one answer) is not modelled and not provoked",
-               "closers released together write CurrentHeaderType / curPacketNr without a lock (data race on the unchanged tree, see props/c12.py): C13 does not judge packet numbers",
+               "a closer that loses the compare-and-swap returns ErrChannelClosed while the winner may still be at work: 'after a channel is closed every call reports the closed condition' is judged once "
+               "every closer has returned; C13 does not judge the teardown packets' numbers (C12 does)",
                "a Read that fails with io.EOF together with a complete packet (CLOSE packets) is not modelled: transport reads yield a packet or a non-EOF error",
                "with errors queued on the connection or the channel NextPackage may return such an error instead of the context's error (select): C13_cancel assumes none queued, "
                "C13_cancel_never_blocks holds regardless; with wait=false ErrNoPackageReady is a possible answer also under a cancelled context (the spec accepts it)",
@@ -64,8 +65,8 @@ LEVEL_TEXT = ("Machine-checked over every queue content and every schedule of th
               "packets in front of which the contexts were live; C13_after_close - every receive / send / Close call reports closed, under every schedule the channel stays closed, its "
               "queue only loses packages and the reader is never at a send to it (which would block for ever on the nil channel), WritePacket of a closed channel is lock / check / unlock for ANY packet "
               "(header-only or with a body); C13_reader_free_after_close - a closed channel never holds the reader up; C13_concurrent_close - EVERY schedule of n+1 closers of one channel: no panic, "
-              "teardown started at most once, no deadlock, at most 9 moves per closer, at the end exactly one winner and n times ErrChannelClosed (C13_concurrent_close_unchecked_refuted: without the re-check "
-              "under the write lock the second closer panics); C13_conn_close + C13_reader_guard - after Conn.Close returned: channel closed and unregistered, context done, transport closed, reader's loop guard "
+              "at most one teardown packet, teardown started at most once, no deadlock, at most 10 moves per closer, at the end exactly one winner and n times ErrChannelClosed (C13_concurrent_close_unguarded_refuted / "
+              "_unchecked_refuted: without the compare-and-swap two teardown packets, without the re-check under the write lock as well the second closer panics); C13_conn_close + C13_reader_guard - after Conn.Close returned: channel closed and unregistered, context done, transport closed, reader's loop guard "
               "false; C13_reader_ends_partial (error queue has room) vs C13_reader_ends_refuted (full queue: stuck for ever); C13_close_terminates_partial - no goroutine outside holds the read "
               "lock for good and the queue has room for what may still come => in every reachable state somebody can move until Close returned, and every run has at most measure(init) moves; "
               "the full statement is refuted by C13_close_terminates_refuted (reader parked on a full queue) and C13_close_waits_for_consumer_refuted (consumer parked in NextPackage), both known "
